@@ -88,6 +88,16 @@ def main():
             ev = json.load(open(os.path.join(d, "eval.json")))
         except Exception:
             pass
+        stale = None
+        try:
+            lg = open(os.path.join(d, "eval.log")).read()
+            if '"patch_applies": false' in lg and (not ev or ev.get("repo_head") not in lg):
+                stale = "the patch no longer applies to the current tree (its site was rewritten by a later fix: commit); kept as evaluated at first"
+                ev = None
+        except Exception:
+            pass
+        if ev and str(ev.get("demo_with_change", "")).startswith("PASSES"):
+            stale = "the change no longer breaks the property on the current tree (its own demonstration passes: the defect it relied on was repaired by a fix: commit)"
         if ev:
             parts = []
             for pid, c in ev.get("checks", {}).items():
@@ -95,13 +105,16 @@ def main():
                 mm = re.search(r"correspondence (\d+/\d+).*direct violations (\d+)", s[0] if s else "")
                 parts.append("%s exit %s%s" % (pid, c.get("exit"), (": %s direct, corr %s" % (mm.group(2), mm.group(1))) if mm else ""))
             nowtxt = ("caught" if ev.get("caught_by") else "MISSED") + " (" + "; ".join(parts) + ")"
-        if "note" in meta and not ev:
+        if "note" in meta and not ev and not stale:
             nowtxt = meta["note"]
+        if stale:
+            nowtxt = stale
         n += 1
         c_first += 1 if first else 0
-        c_now += 1 if (ev and ev.get("caught_by")) or (not ev and first) else 0
+        c_now += 1 if (ev and ev.get("caught_by") and not stale) or (not ev and first) else 0
+        n_stale = locals().get("n_stale", 0) + (1 if stale else 0)
         out.append("| %s | %s | %s | %s | %s |" % (sid, meta["property"], desc, firsttxt, first_sentences(nowtxt, 260)))
-    out += ["", "Totals: %d seeded changes; caught at first evaluation %d; caught now %d." % (n, c_first, c_now), ""]
+    out += ["", "Totals: %d seeded changes; caught at first evaluation %d; caught now %d; %d no longer applicable to the current tree (see their rows)." % (n, c_first, c_now, locals().get("n_stale", 0)), ""]
     path = os.path.join(ROOT, "DESIGN.md")
     src = open(path).read()
     head = src.split(MARK)[0].rstrip() + "\n\n"
